@@ -1,7 +1,784 @@
-// Engine `msched`; filled in by a later step.
-use super::Script;
+// Engine `msched`: the MASTER's automatic tasks and scheduling (properties C17 and C19).
+//
+// A `MasterTask` is created over `PhysLayer::Mock` exactly as the repository's own test harness
+// does (dnp3/src/master/tests/harness/mod.rs): under cfg(test) the transport is the mock, so bytes
+// queued on the mock IO handle are whole APPLICATION fragments and observed writes are whole
+// application fragments.  Hook H6 stamps every received fragment with its source link address.
+//
+// cfg:   n=<1..4>            number of associations (addresses 1024+i)
+//        a<i>=dis:integ:en:ts:ovf:ev:rmin:rmax:ka:rto:maxq
+//              dis/en/ev  event class mask (bit0=class1, bit1=class2, bit2=class3)
+//              integ      class mask of the start-up integrity poll (bit3 = class 0)
+//              ts         auto time sync: 0 none, 1 LAN, 2 non-LAN, 3 direct write
+//              ovf        auto integrity scan on EVENT_BUFFER_OVERFLOW (0/1)
+//              rmin/rmax  retry strategy of the automatic tasks, milliseconds
+//              ka         keep-alive timeout in ms, 0 = none
+//              rto        response timeout in ms (1 ..= 3_600_000)
+//              maxq       max_queued_user_requests
+//        systime=<ms>|none   what AssociationHandler::get_current_time answers (base + virtual ms)
+//        wakes=1             print `wakes <max polls of the master task within one virtual ms>` at
+//                            the end (implementation-only scripts, not compared with the model)
+// ops:   rx <from> <hex> | sleep <ms> | add_poll <assoc> <period_ms> <classes> | demand <assoc> <poll>
+//        user <assoc> <token> <kind> [arg]   kind: read <classes> | link | empty | tsync <1|2|3>
+//        enable | disable | reconnect | systime <ms>|none | now
+//        backoff <min_s>:<min_ns> <max_s>:<max_ns> <n>    (calls app::retry directly)
+//
+// Settle: after every op the harness awaits `tokio::time::sleep(1 ms)` (paused clock: virtual time
+// advances only when every task is blocked, timer by timer) and then yields a few times so that
+// everything due at that instant is processed before the next op.  An op therefore happens at
+// virtual time t and costs 1 ms; `sleep d` costs d + 1.
+//
+// Observations carry the virtual time in ms and are printed at the end of the script sorted by
+// (time, stream) where stream 0 = callbacks made synchronously by the master task (conn/closed,
+// cb, info, link-status requests), 1 = fragments written (seen through the mock IO handle), 2 =
+// completions of user requests, 3 = `now`.  Within one (time, stream) the arrival order is kept.
+//   conn <t> | closed <t> <reason>
+//   tx <t> <hex>                        fragment written
+//   txlink <t> <assoc>                  REQUEST_LINK_STATUS (the mock transport writes nothing; seen
+//                                       through the tracing event of MasterSession::run_link_status_task)
+//   cb <t> <assoc> <read_type> <n>      ReadHandler: one fragment delivered with n measurement values
+//   info <t> <assoc> start|ok <type> <fc> <seq> | info <t> <assoc> fail <type> <err> | info <t> <assoc> unsol <dup> <seq>
+//   res <t> <token> ok | res <t> <token> err <kind>
+//   now <t>
+// A wall-clock watchdog thread guards against a master task that never yields: after
+// STALL_SECS without progress it writes the traces finished so far plus the current one ending in
+// `stall` to VERIF_OUT and exits the process.
+
+use super::{hex, unhex, Script};
+use std::sync::atomic::{AtomicBool, AtomicU64, Ordering};
+use std::sync::{Arc, Mutex};
+use std::time::Duration;
+
+use crate::app::measurement::*;
+use crate::app::parse::options::ParseOptions;
+use crate::app::{
+    BufferSize, ExponentialBackOff, FunctionCode, MaybeAsync, ResponseHeader, RetryStrategy,
+    Sequence, Timeout, Timestamp,
+};
+use crate::decode::DecodeLevel;
+use crate::link::header::{FrameInfo, FrameType};
+use crate::link::reader::LinkModes;
+use crate::link::EndpointAddress;
+use crate::master::task::MasterTask;
+use crate::master::{
+    AssociationConfig, AssociationHandle, AssociationHandler, AssociationInformation, Classes,
+    EventClasses,
+    HeaderInfo, Headers, MasterChannel, MasterChannelConfig, MasterChannelType, ReadHandler,
+    ReadRequest, ReadType, TaskError, TaskType, TimeSyncError, TimeSyncProcedure, WriteError,
+};
+use crate::util::phys::{PhysAddr, PhysLayer};
+use crate::util::session::{Enabled, RunError, StopReason};
+
+const STALL_SECS: u64 = 20;
+
+// ---- shared log -------------------------------------------------------------------------------
+
+struct Shared {
+    start: tokio::time::Instant,
+    log: Mutex<Vec<(u64, u8, String)>>,
+    systime: Mutex<Option<u64>>,
+    connected: AtomicBool,
+}
+
+impl Shared {
+    fn now_ms(&self) -> u64 {
+        (tokio::time::Instant::now() - self.start).as_millis() as u64
+    }
+    fn push(&self, stream: u8, f: impl FnOnce(u64) -> String) {
+        let t = self.now_ms();
+        let line = f(t);
+        self.log.lock().unwrap().push((t, stream, line));
+        heartbeat();
+    }
+}
+
+// ---- watchdog ---------------------------------------------------------------------------------
+
+struct Watch {
+    beat: AtomicU64,                    // wall-clock ms since WATCH_START of the last progress
+    running: AtomicBool,                // a script of this engine is executing
+    current: Mutex<Option<(String, Arc<Shared>)>>,
+    finished: Mutex<String>,            // traces of the msched scripts already finished
+}
+
+static WATCH: std::sync::OnceLock<Arc<Watch>> = std::sync::OnceLock::new();
+static WATCH_START: std::sync::OnceLock<std::time::Instant> = std::sync::OnceLock::new();
+
+fn wall_ms() -> u64 {
+    WATCH_START
+        .get_or_init(std::time::Instant::now)
+        .elapsed()
+        .as_millis() as u64
+}
+
+fn heartbeat() {
+    if let Some(w) = WATCH.get() {
+        w.beat.store(wall_ms(), Ordering::Relaxed);
+    }
+}
+
+fn sorted_lines(shared: &Shared) -> Vec<String> {
+    let mut entries: Vec<(u64, u8, usize, String)> = shared
+        .log
+        .lock()
+        .unwrap()
+        .iter()
+        .enumerate()
+        .map(|(i, (t, s, l))| (*t, *s, i, l.clone()))
+        .collect();
+    entries.sort_by(|a, b| (a.0, a.1, a.2).cmp(&(b.0, b.1, b.2)));
+    entries.into_iter().map(|e| e.3).collect()
+}
+
+fn watch() -> Arc<Watch> {
+    WATCH
+        .get_or_init(|| {
+            let w = Arc::new(Watch {
+                beat: AtomicU64::new(wall_ms()),
+                running: AtomicBool::new(false),
+                current: Mutex::new(None),
+                finished: Mutex::new(String::new()),
+            });
+            let w2 = w.clone();
+            std::thread::spawn(move || loop {
+                std::thread::sleep(Duration::from_millis(500));
+                if !w2.running.load(Ordering::Relaxed) {
+                    continue;
+                }
+                let idle = wall_ms().saturating_sub(w2.beat.load(Ordering::Relaxed));
+                if idle > STALL_SECS * 1000 {
+                    // the master task (or the engine) never yielded: report and leave
+                    let mut out = w2.finished.lock().unwrap().clone();
+                    if let Some((id, shared)) = w2.current.lock().unwrap().as_ref() {
+                        out.push_str(&format!("T {}\n", id));
+                        if let Ok(log) = shared.log.try_lock() {
+                            let mut entries: Vec<(u64, u8, usize, String)> = log
+                                .iter()
+                                .enumerate()
+                                .map(|(i, (t, s, l))| (*t, *s, i, l.clone()))
+                                .collect();
+                            entries.sort_by(|a, b| (a.0, a.1, a.2).cmp(&(b.0, b.1, b.2)));
+                            for e in entries {
+                                out.push_str(&e.3);
+                                out.push('\n');
+                            }
+                        }
+                        out.push_str("stall\nE\n");
+                    }
+                    if let Ok(path) = std::env::var("VERIF_OUT") {
+                        let _ = std::fs::write(path, out);
+                    }
+                    std::process::exit(0);
+                }
+            });
+            w
+        })
+        .clone()
+}
+
+// ---- names ------------------------------------------------------------------------------------
+
+fn task_type_name(t: TaskType) -> String {
+    match t {
+        TaskType::UserRead => "user-read".into(),
+        TaskType::PeriodicPoll => "poll".into(),
+        TaskType::StartupIntegrity => "integrity".into(),
+        TaskType::AutoEventScan => "event-scan".into(),
+        TaskType::Command => "command".into(),
+        TaskType::ClearRestartBit => "clear-restart".into(),
+        TaskType::EnableUnsolicited => "enable-unsol".into(),
+        TaskType::DisableUnsolicited => "disable-unsol".into(),
+        TaskType::TimeSync => "time-sync".into(),
+        TaskType::Restart => "restart".into(),
+        TaskType::WriteDeadBands => "dead-bands".into(),
+        TaskType::GenericEmptyResponse(fc) => format!("empty-{}", fc.as_u8()),
+        _ => "other".into(),
+    }
+}
+
+fn task_error_name(e: TaskError) -> String {
+    match e {
+        TaskError::TooManyRequests => "too-many-requests".into(),
+        TaskError::Link(_) => "link".into(),
+        TaskError::Transport => "transport".into(),
+        TaskError::RejectedByIin2(_) => "iin2".into(),
+        TaskError::MalformedResponse(_) => "malformed".into(),
+        TaskError::UnexpectedResponseHeaders => "unexpected-headers".into(),
+        TaskError::NonFinWithoutCon => "non-fin-without-con".into(),
+        TaskError::NeverReceivedFir => "never-fir".into(),
+        TaskError::UnexpectedFir => "unexpected-fir".into(),
+        TaskError::MultiFragmentResponse => "multi-fragment".into(),
+        TaskError::ResponseTimeout => "timeout".into(),
+        TaskError::WriteError => "write-error".into(),
+        TaskError::BadEncoding(_) => "bad-encoding".into(),
+        TaskError::NoSuchAssociation(_) => "no-association".into(),
+        TaskError::NoConnection => "no-connection".into(),
+        TaskError::Shutdown => "shutdown".into(),
+        TaskError::Disabled => "disabled".into(),
+    }
+}
+
+fn time_sync_error_name(e: TimeSyncError) -> String {
+    match e {
+        TimeSyncError::Task(t) => task_error_name(t),
+        TimeSyncError::ClockRollback => "clock-rollback".into(),
+        TimeSyncError::SystemTimeNotUnix => "not-unix".into(),
+        TimeSyncError::BadOutstationTimeDelay(_) => "bad-delay".into(),
+        TimeSyncError::Overflow => "overflow".into(),
+        TimeSyncError::StillNeedsTime => "still-needs-time".into(),
+        TimeSyncError::SystemTimeNotAvailable => "no-system-time".into(),
+        TimeSyncError::IinError(_) => "iin2".into(),
+    }
+}
+
+fn write_error_name(e: WriteError) -> String {
+    match e {
+        WriteError::Task(t) => task_error_name(t),
+        WriteError::IinError(_) => "iin2".into(),
+    }
+}
+
+fn read_type_name(t: ReadType) -> &'static str {
+    match t {
+        ReadType::StartupIntegrity => "integrity",
+        ReadType::Unsolicited => "unsol",
+        ReadType::SinglePoll => "single",
+        ReadType::PeriodicPoll => "poll",
+    }
+}
+
+fn event_classes(mask: u64) -> EventClasses {
+    EventClasses::new(mask & 1 != 0, mask & 2 != 0, mask & 4 != 0)
+}
+
+fn classes(mask: u64) -> Classes {
+    Classes::new(mask & 8 != 0, event_classes(mask))
+}
+
+fn procedure(x: u64) -> Option<TimeSyncProcedure> {
+    match x {
+        0 => None,
+        1 => Some(TimeSyncProcedure::Lan),
+        2 => Some(TimeSyncProcedure::NonLan),
+        3 => Some(TimeSyncProcedure::DirectWriteAbsTime),
+        _ => panic!("bad time sync procedure"),
+    }
+}
+
+// ---- handlers ---------------------------------------------------------------------------------
+
+struct Reads {
+    shared: Arc<Shared>,
+    assoc: usize,
+    count: u64,
+}
+
+impl Reads {
+    fn add<T>(&mut self, iter: &mut dyn Iterator<Item = T>) {
+        self.count += iter.count() as u64;
+    }
+}
+
+impl ReadHandler for Reads {
+    fn begin_fragment(&mut self, _read_type: ReadType, _header: ResponseHeader) -> MaybeAsync<()> {
+        self.count = 0;
+        MaybeAsync::ready(())
+    }
+    fn end_fragment(&mut self, read_type: ReadType, _header: ResponseHeader) -> MaybeAsync<()> {
+        let (assoc, n) = (self.assoc, self.count);
+        self.shared
+            .push(0, |t| format!("cb {} {} {} {}", t, assoc, read_type_name(read_type), n));
+        MaybeAsync::ready(())
+    }
+    fn handle_binary_input(
+        &mut self,
+        _info: HeaderInfo,
+        iter: &mut dyn Iterator<Item = (BinaryInput, u16)>,
+    ) {
+        self.add(iter)
+    }
+    fn handle_double_bit_binary_input(
+        &mut self,
+        _info: HeaderInfo,
+        iter: &mut dyn Iterator<Item = (DoubleBitBinaryInput, u16)>,
+    ) {
+        self.add(iter)
+    }
+    fn handle_binary_output_status(
+        &mut self,
+        _info: HeaderInfo,
+        iter: &mut dyn Iterator<Item = (BinaryOutputStatus, u16)>,
+    ) {
+        self.add(iter)
+    }
+    fn handle_counter(&mut self, _info: HeaderInfo, iter: &mut dyn Iterator<Item = (Counter, u16)>) {
+        self.add(iter)
+    }
+    fn handle_frozen_counter(
+        &mut self,
+        _info: HeaderInfo,
+        iter: &mut dyn Iterator<Item = (FrozenCounter, u16)>,
+    ) {
+        self.add(iter)
+    }
+    fn handle_analog_input(
+        &mut self,
+        _info: HeaderInfo,
+        iter: &mut dyn Iterator<Item = (AnalogInput, u16)>,
+    ) {
+        self.add(iter)
+    }
+    fn handle_analog_output_status(
+        &mut self,
+        _info: HeaderInfo,
+        iter: &mut dyn Iterator<Item = (AnalogOutputStatus, u16)>,
+    ) {
+        self.add(iter)
+    }
+}
+
+struct Clock {
+    shared: Arc<Shared>,
+}
+
+impl AssociationHandler for Clock {
+    fn get_current_time(&self) -> Option<Timestamp> {
+        let base = *self.shared.systime.lock().unwrap();
+        base.map(|b| Timestamp::new(b + self.shared.now_ms()))
+    }
+}
+
+struct Info {
+    shared: Arc<Shared>,
+    assoc: usize,
+}
+
+impl AssociationInformation for Info {
+    fn task_start(&mut self, task_type: TaskType, fc: FunctionCode, seq: Sequence) {
+        let a = self.assoc;
+        self.shared.push(0, |t| {
+            format!("info {} {} start {} {} {}", t, a, task_type_name(task_type), fc.as_u8(), seq.value())
+        });
+    }
+    fn task_success(&mut self, task_type: TaskType, fc: FunctionCode, seq: Sequence) {
+        let a = self.assoc;
+        self.shared.push(0, |t| {
+            format!("info {} {} ok {} {} {}", t, a, task_type_name(task_type), fc.as_u8(), seq.value())
+        });
+    }
+    fn task_fail(&mut self, task_type: TaskType, error: TaskError) {
+        let a = self.assoc;
+        self.shared.push(0, |t| {
+            format!("info {} {} fail {} {}", t, a, task_type_name(task_type), task_error_name(error))
+        });
+    }
+    fn unsolicited_response(&mut self, is_duplicate: bool, seq: Sequence) {
+        let a = self.assoc;
+        self.shared.push(0, |t| {
+            format!("info {} {} unsol {} {}", t, a, is_duplicate as u8, seq.value())
+        });
+    }
+}
+
+// ---- tracing: the only trace a link status request leaves under the mock transport -------------
+
+struct LinkStatusWatcher {
+    shared: Arc<Shared>,
+}
+
+struct MessageVisitor(String);
+
+impl tracing::field::Visit for MessageVisitor {
+    fn record_debug(&mut self, field: &tracing::field::Field, value: &dyn std::fmt::Debug) {
+        let s = format!("{:?}", value);
+        if field.name() == "message" {
+            self.0 = s;
+        }
+    }
+}
+
+impl tracing::Subscriber for LinkStatusWatcher {
+    fn enabled(&self, _metadata: &tracing::Metadata<'_>) -> bool {
+        true
+    }
+    fn new_span(&self, _span: &tracing::span::Attributes<'_>) -> tracing::span::Id {
+        tracing::span::Id::from_u64(1)
+    }
+    fn record(&self, _span: &tracing::span::Id, _values: &tracing::span::Record<'_>) {}
+    fn record_follows_from(&self, _span: &tracing::span::Id, _follows: &tracing::span::Id) {}
+    fn event(&self, event: &tracing::Event<'_>) {
+        let mut v = MessageVisitor(String::new());
+        event.record(&mut v);
+        if let Some(rest) = v.0.strip_prefix("sending link status request (for ") {
+            let addr: u64 = rest.trim_end_matches(')').parse().expect("address in link status message");
+            self.shared
+                .push(0, |t| format!("txlink {} {}", t, addr.wrapping_sub(1024)));
+        }
+    }
+    fn enter(&self, _span: &tracing::span::Id) {}
+    fn exit(&self, _span: &tracing::span::Id) {}
+}
+
+// ---- counting polls of the master task ---------------------------------------------------------
+
+struct CountPolls<F> {
+    inner: std::pin::Pin<Box<F>>,
+    shared: Arc<Shared>,
+    stats: Arc<Mutex<(u64, u64, u64)>>, // (current ms, polls in it, maximum)
+}
+
+impl<F: std::future::Future> std::future::Future for CountPolls<F> {
+    type Output = F::Output;
+    fn poll(
+        mut self: std::pin::Pin<&mut Self>,
+        cx: &mut std::task::Context<'_>,
+    ) -> std::task::Poll<F::Output> {
+        {
+            let t = self.shared.now_ms();
+            let mut s = self.stats.lock().unwrap();
+            if s.0 != t {
+                s.0 = t;
+                s.1 = 0;
+            }
+            s.1 += 1;
+            if s.1 > s.2 {
+                s.2 = s.1;
+            }
+            if s.1 > 100_000 {
+                // an asynchronous busy loop under the paused clock: virtual time never advances
+                drop(s);
+                self.shared.push(3, |_| "stall".to_string());
+                return std::task::Poll::Pending; // never woken again: the script ends with `stall`
+            }
+        }
+        heartbeat();
+        self.inner.as_mut().poll(cx)
+    }
+}
+
+// ---- the engine -------------------------------------------------------------------------------
+
+enum Cmd {
+    Handle(sfio_tokio_mock_io::Handle),
+    Closed,
+    Read(Vec<u8>),
+    ReadError,
+}
+
+fn parse_dur(s: &str) -> Duration {
+    let (a, b) = s.split_once(':').expect("secs:nanos");
+    Duration::new(a.parse().unwrap(), b.parse().unwrap())
+}
+
+fn run_backoff(op: &[String], obs: &mut Vec<String>) {
+    let min = parse_dur(&op[1]);
+    let max = parse_dur(&op[2]);
+    let n: usize = op[3].parse().unwrap();
+    let mut b = ExponentialBackOff::new(RetryStrategy::new(min, max));
+    let mut line = String::from("delays");
+    for _ in 0..n {
+        let d = b.on_failure();
+        line.push_str(&format!(" {}:{}", d.as_secs(), d.subsec_nanos()));
+    }
+    b.on_success();
+    let d = b.on_failure();
+    line.push_str(&format!(" reset {}:{}", d.as_secs(), d.subsec_nanos()));
+    obs.push(line);
+}
+
+fn assoc_config(spec: &str) -> AssociationConfig {
+    let f: Vec<u64> = spec.split(':').map(|x| x.parse().expect("number in association spec")).collect();
+    assert!(f.len() == 11, "association spec needs 11 fields");
+    let mut c = AssociationConfig::quiet();
+    c.disable_unsol_classes = event_classes(f[0]);
+    c.startup_integrity_classes = classes(f[1]);
+    c.enable_unsol_classes = event_classes(f[2]);
+    c.auto_time_sync = procedure(f[3]);
+    c.auto_integrity_scan_on_buffer_overflow = f[4] != 0;
+    c.event_scan_on_events_available = event_classes(f[5]);
+    c.auto_tasks_retry_strategy =
+        RetryStrategy::new(Duration::from_millis(f[6]), Duration::from_millis(f[7]));
+    c.keep_alive_timeout = if f[8] == 0 { None } else { Some(Duration::from_millis(f[8])) };
+    c.response_timeout = Timeout::from_duration(Duration::from_millis(f[9])).expect("response timeout in range");
+    c.max_queued_user_requests = f[10] as usize;
+    c
+}
 
 pub(crate) async fn run_msched(script: &Script, obs: &mut Vec<String>) {
-    let _ = script;
-    obs.push("unimplemented".to_string());
+    if script.ops.iter().all(|op| op[0] == "backoff") {
+        for op in &script.ops {
+            run_backoff(op, obs);
+        }
+        obs.push("end".to_string());
+        return;
+    }
+
+    let w = watch();
+    let shared = Arc::new(Shared {
+        start: tokio::time::Instant::now(),
+        log: Mutex::new(Vec::new()),
+        systime: Mutex::new(match script.cfg_str("systime", "none").as_str() {
+            "none" => None,
+            x => Some(x.parse().expect("systime")),
+        }),
+        connected: AtomicBool::new(false),
+    });
+    *w.current.lock().unwrap() = Some((script.id.clone(), shared.clone()));
+    heartbeat();
+    w.running.store(true, Ordering::Relaxed);
+
+    let _trace_guard = tracing::subscriber::set_default(LinkStatusWatcher {
+        shared: shared.clone(),
+    });
+    crate::transport::mock::reader::verif_hook::clear();
+
+    let n = script.cfg_u64("n", 1) as usize;
+    assert!((1..=4).contains(&n));
+
+    let task_config = MasterChannelConfig {
+        master_address: EndpointAddress::try_new(1).unwrap(),
+        decode_level: DecodeLevel::nothing(),
+        tx_buffer_size: BufferSize::min(),
+        rx_buffer_size: BufferSize::min(),
+    };
+    let (tx, rx) = crate::util::channel::request_channel();
+    let mut task = MasterTask::new(
+        Enabled::Yes,
+        LinkModes::serial(),
+        ParseOptions::default(),
+        task_config,
+        rx,
+    );
+    task.set_rx_frame_info(FrameInfo::new(
+        EndpointAddress::try_new(1024).unwrap(),
+        None,
+        FrameType::Data,
+        PhysAddr::None,
+    ));
+    let mut master = MasterChannel::new(tx, MasterChannelType::Stream);
+
+    let (cmd_tx, mut cmd_rx) = tokio::sync::mpsc::unbounded_channel::<Cmd>();
+
+    // the connection loop: what the TCP client task does around MasterTask::run, with a mock
+    // connection that is re-established at once
+    let stats = Arc::new(Mutex::new((0u64, 0u64, 0u64)));
+    let driver_shared = shared.clone();
+    let driver_cmd = cmd_tx.clone();
+    let driver_future = async move {
+        let mut graveyard: Vec<PhysLayer> = Vec::new();
+        loop {
+            while task.enabled() == Enabled::No {
+                if task.process_next_message().await.is_err() {
+                    return graveyard;
+                }
+            }
+            let (io, handle) = sfio_tokio_mock_io::mock();
+            let _ = driver_cmd.send(Cmd::Handle(handle));
+            driver_shared.connected.store(true, Ordering::SeqCst);
+            driver_shared.push(0, |t| format!("conn {}", t));
+            let mut phys = PhysLayer::Mock(io);
+            let err = task.run(&mut phys).await;
+            driver_shared.connected.store(false, Ordering::SeqCst);
+            let _ = driver_cmd.send(Cmd::Closed);
+            let reason = match err {
+                RunError::Stop(StopReason::Disable) => "disabled",
+                RunError::Stop(StopReason::Shutdown) => "shutdown",
+                RunError::Link(_) => "link",
+            };
+            driver_shared.push(0, |t| format!("closed {} {}", t, reason));
+            graveyard.push(phys);
+            if err == RunError::Stop(StopReason::Shutdown) {
+                return graveyard;
+            }
+        }
+    };
+    let driver = tokio::spawn(CountPolls {
+        inner: Box::pin(driver_future),
+        shared: shared.clone(),
+        stats: stats.clone(),
+    });
+
+    // the collector owns the mock IO handle: it stamps every write with the virtual time at which
+    // it happened and queues reads / read errors on request
+    let coll_shared = shared.clone();
+    let collector = tokio::spawn(async move {
+        let mut handle: Option<sfio_tokio_mock_io::Handle> = None;
+        loop {
+            tokio::select! {
+                cmd = cmd_rx.recv() => {
+                    match cmd {
+                        None => return,
+                        Some(Cmd::Handle(h)) => handle = Some(h),
+                        Some(Cmd::Closed) => {
+                            // drain what the closed connection still reports
+                            if let Some(h) = handle.as_mut() {
+                                while let Some(ev) = h.pop_event() {
+                                    if let sfio_tokio_mock_io::Event::Write(data) = ev {
+                                        coll_shared.push(1, |t| format!("tx {} {}", t, hex(&data)));
+                                    }
+                                }
+                            }
+                            handle = None;
+                        }
+                        Some(Cmd::Read(data)) => if let Some(h) = handle.as_mut() { h.read(&data) },
+                        Some(Cmd::ReadError) => if let Some(h) = handle.as_mut() { h.read_error(std::io::ErrorKind::ConnectionReset) },
+                    }
+                }
+                ev = async { handle.as_mut().unwrap().next_event().await }, if handle.is_some() => {
+                    if let sfio_tokio_mock_io::Event::Write(data) = ev {
+                        coll_shared.push(1, |t| format!("tx {} {}", t, hex(&data)));
+                    }
+                }
+            }
+        }
+    });
+
+    // associations
+    let mut assocs: Vec<AssociationHandle> = Vec::new();
+    let mut polls: Vec<Vec<crate::master::PollHandle>> = Vec::new();
+    for i in 0..n {
+        let spec = script.cfg_str(&format!("a{}", i), "0:0:0:0:0:0:1000:10000:0:1000:16");
+        let config = assoc_config(&spec);
+        let h = master
+            .add_association(
+                EndpointAddress::try_new(1024 + i as u16).unwrap(),
+                config,
+                Box::new(Reads { shared: shared.clone(), assoc: i, count: 0 }),
+                Box::new(Clock { shared: shared.clone() }),
+                Box::new(Info { shared: shared.clone(), assoc: i }),
+            )
+            .await
+            .expect("add_association");
+        assocs.push(h);
+        polls.push(Vec::new());
+    }
+    settle().await;
+
+    let mut users = Vec::new();
+    for op in &script.ops {
+        heartbeat();
+        match op[0].as_str() {
+            "rx" => {
+                let from: u16 = op[1].parse().unwrap();
+                let data = unhex(&op[2]);
+                if shared.connected.load(Ordering::SeqCst) && !data.is_empty() {
+                    crate::transport::mock::reader::verif_hook::push_frame_info(FrameInfo::new(
+                        EndpointAddress::try_new(from).unwrap(),
+                        None,
+                        FrameType::Data,
+                        PhysAddr::None,
+                    ));
+                    let _ = cmd_tx.send(Cmd::Read(data));
+                }
+            }
+            "sleep" => {
+                let ms: u64 = op[1].parse().unwrap();
+                tokio::time::sleep(Duration::from_millis(ms)).await;
+            }
+            "add_poll" => {
+                let a: usize = op[1].parse().unwrap();
+                let period: u64 = op[2].parse().unwrap();
+                let mask: u64 = op[3].parse().unwrap();
+                let h = assocs[a]
+                    .add_poll(ReadRequest::class_scan(classes(mask)), Duration::from_millis(period))
+                    .await
+                    .expect("add_poll");
+                polls[a].push(h);
+            }
+            "demand" => {
+                let a: usize = op[1].parse().unwrap();
+                let p: usize = op[2].parse().unwrap();
+                if let Some(h) = polls[a].get_mut(p) {
+                    h.demand().await.expect("demand");
+                }
+            }
+            "user" => {
+                let a: usize = op[1].parse().unwrap();
+                let token = op[2].clone();
+                let kind = op[3].clone();
+                let arg: u64 = op.get(4).map(|x| x.parse().unwrap()).unwrap_or(0);
+                let mut h = assocs[a].clone();
+                let sh = shared.clone();
+                users.push(tokio::spawn(async move {
+                    let res: Result<(), String> = match kind.as_str() {
+                        "read" => h
+                            .read(ReadRequest::class_scan(classes(arg)))
+                            .await
+                            .map_err(task_error_name),
+                        "link" => h.check_link_status().await.map_err(task_error_name),
+                        "empty" => h
+                            .send_and_expect_empty_response(FunctionCode::ImmediateFreeze, Headers::new())
+                            .await
+                            .map_err(write_error_name),
+                        "tsync" => h
+                            .synchronize_time(procedure(arg).expect("procedure"))
+                            .await
+                            .map_err(time_sync_error_name),
+                        other => panic!("unknown user request kind {}", other),
+                    };
+                    match res {
+                        Ok(()) => sh.push(2, |t| format!("res {} {} ok", t, token)),
+                        Err(e) => sh.push(2, |t| format!("res {} {} err {}", t, token, e)),
+                    }
+                }));
+            }
+            "enable" => master.enable().await.expect("enable"),
+            "disable" => master.disable().await.expect("disable"),
+            "reconnect" => {
+                if shared.connected.load(Ordering::SeqCst) {
+                    let _ = cmd_tx.send(Cmd::ReadError);
+                }
+            }
+            "systime" => {
+                *shared.systime.lock().unwrap() = match op[1].as_str() {
+                    "none" => None,
+                    x => Some(x.parse().expect("systime")),
+                };
+            }
+            "now" => shared.push(3, |t| format!("now {}", t)),
+            other => panic!("unknown msched op {}", other),
+        }
+        settle().await;
+        if shared.log.lock().unwrap().iter().any(|e| e.2 == "stall") {
+            break;
+        }
+    }
+
+    driver.abort();
+    collector.abort();
+    for u in users {
+        u.abort();
+    }
+    let _ = driver.await;
+    let _ = collector.await;
+
+    w.running.store(false, Ordering::Relaxed);
+    let mut lines = sorted_lines(&shared);
+    if lines.iter().any(|l| l == "stall") {
+        lines.retain(|l| l != "stall");
+        lines.push("stall".to_string());
+    }
+    if script.cfg_u64("wakes", 0) == 1 {
+        lines.push(format!("wakes {}", stats.lock().unwrap().2));
+    }
+    lines.push("end".to_string());
+    {
+        let mut fin = w.finished.lock().unwrap();
+        fin.push_str(&format!("T {}\n", script.id));
+        for l in &lines {
+            fin.push_str(l);
+            fin.push('\n');
+        }
+        fin.push_str("E\n");
+    }
+    *w.current.lock().unwrap() = None;
+    obs.extend(lines);
+}
+
+async fn settle() {
+    tokio::time::sleep(Duration::from_millis(1)).await;
+    for _ in 0..6 {
+        tokio::task::yield_now().await;
+    }
+    heartbeat();
 }
